@@ -83,13 +83,22 @@ def make_runner(h):
             for (api, arg) in h.get('pre', []):      # sequential prologue (e.g. the application already closed)
                 CALLS[api](ws, arg)
             ex.events = []
+            holder_gen = [gen]
             nloop = h.get('loop', 0)
             if nloop:
                 def loop_body(results, _gen=gen):
+                    reconnected = False
                     for _ in range(nloop):
                         try:
                             ev = next(_gen)
                         except StopIteration:
+                            if h.get('reconnect') and not reconnected:
+                                # what persist() does: the same object connects again (while other threads keep using it)
+                                reconnected = True
+                                _gen = ws.connect(**ck)
+                                holder_gen[0] = _gen
+                                results.append(('loop', 'reconnect', None))
+                                continue
                             results.append(('loop', 'stopped', None))
                             return
                         ex.events.append(ev)
@@ -155,6 +164,8 @@ def make_runner(h):
                             lk.owner, lk.depth = None, 0
                 try:
                     gen.close()  # tidy up inside the world (nothing below looks at later writes)
+                    if holder_gen[0] is not gen:
+                        holder_gen[0].close()
                     if gen2 is not None:
                         gen2.close()
                 except BaseException:  # noqa
@@ -162,7 +173,7 @@ def make_runner(h):
         req, rest = ref_ws.split_http_request(b''.join(w.data for w in world.writes[:ex.wire_len] if w.conn == 0))
         ex.frames, ex.garbage = ref_ws.decode_client_stream(rest)
         ex.frames2, ex.garbage2 = [], None
-        if h.get('two'):
+        if h.get('two') or h.get('reconnect'):
             req2, rest2 = ref_ws.split_http_request(b''.join(w.data for w in world.writes[:ex.wire_len] if w.conn == 1))
             ex.frames2, ex.garbage2 = ref_ws.decode_client_stream(rest2)
         return ex
